@@ -77,6 +77,7 @@ var hostileBodies = []string{"", " ", "a=b", "msg=audit(1.2:3): x=y", "): :(.", 
 func modeHeader(seed uint64, n int, out *sx.Out) {
 	names := auparse.VerifMessageTypeToName()
 	for i := 0; i < n; i++ {
+		out.Begin(map[string]interface{}{"mode": "modeHeader", "case": i})
 		r := sx.Fork(seed, uint64(i))
 		T := r.Intn(65536)
 		if r.Chance(1, 2) {
@@ -218,6 +219,7 @@ var errnoNames map[int]string
 
 func modeData(seed uint64, n int, out *sx.Out) {
 	for i := 0; i < n; i++ {
+		out.Begin(map[string]interface{}{"mode": "modeData", "case": i})
 		r := sx.Fork(seed, uint64(i)+1<<32)
 		var typ auparse.AuditMessageType
 		var body string
@@ -526,6 +528,7 @@ func modeFuzz(seed uint64, n int, out *sx.Out) {
 	special := []auparse.AuditMessageType{auparse.AUDIT_SYSCALL, auparse.AUDIT_SECCOMP, auparse.AUDIT_SOCKADDR, auparse.AUDIT_EXECVE, auparse.AUDIT_AVC, auparse.AUDIT_LOGIN, auparse.AUDIT_PATH, auparse.AUDIT_PROCTITLE,
 		auparse.AUDIT_USER_CMD, auparse.AUDIT_TTY, auparse.AUDIT_USER_TTY, auparse.AUDIT_USER_LOGIN, auparse.AUDIT_CRED_DISP, auparse.AUDIT_USER_START, auparse.AUDIT_USER_END, auparse.AUDIT_CWD}
 	for i := 0; i < n; i++ {
+		out.Begin(map[string]interface{}{"mode": "modeFuzz", "case": i})
 		r := sx.Fork(seed, uint64(i)+2<<32)
 		typ := sx.Pick(r, special)
 		if r.Chance(1, 4) {
